@@ -17,6 +17,7 @@ import math
 import random
 
 from harness import core
+from harness.props import c20_sql
 
 PROP = "C20"
 ALIASES = ["ta", "tb", "tc"]
@@ -704,7 +705,7 @@ def compare(ctx, cases, drv):
     for (c, r), (req, codes), m in zip(todo, built, mres):
         if "error" in m:
             raise core.HarnessError("model driver error: " + m["error"])
-        bad = compare_model(c, r, m, codes)
+        bad = compare_model(c, r, m, codes) or c20_sql.differs(ctx, m)
         if bad:
             problems.append((c, "descriptive outputs differ from Lean model Descriptive: " + bad, False))
             continue
@@ -773,7 +774,11 @@ def run(ctx: core.Ctx):
         "histogram: a weight within 1e-9 of a bin edge may be counted in either neighbouring bin (bw*floor(w/bw) at Float)",
         "completeness_data does not run on SQLite (syntax); histogram_data raises on an empty prediction table: both loud, excluded and counted",
     ]
+    sql_errs = c20_sql.prepare()  # Generated/DescSql.lean: the TF-table and completeness statements the code emits now, as Rel terms (T-sql)
     ctx.lean = core.lean_check(PROP, ctx.thorough)
+    if sql_errs:
+        ctx.lean.ok = False
+        ctx.lean.problems += ["T-sql: " + e for e in sql_errs]
     drv = core.Driver()
     if ctx.replay:
         cases = [json.loads(open(ctx.replay).read())["replay"]["case"]]
